@@ -85,7 +85,9 @@ P["C02"] = dict(
         "T-CONTAINER-DEFAULTS: the same tuple presented through any supported container yields the stored dimensions, "
         "height 0 / epoch NaN or the adapter's fixed values",
         "R-STACK-LOCAL: the pipeline stack is a fresh local per application",
-    ],
+             "R-TUPLE-LOOP-COMPLETE: a per-tuple loop is left only when its iterator is exhausted (no break/return in the body) and writes only the current tuple (no set-wide stomp in the body)",
+             "R-PIPE-ORDER: the pipeline runs every step whatever the other tuples of the set did (no early exit)",
+             "R-DEFAULT-RMW: the default bulk setters of CoordinateSet hand the elements they do not set back as read"],
     not_decided=["agreement of specialised container accessors with the trait defaults",
                  "bit-identity across containers (follows from determinism, not checked)"],
     level="Decides purity of the per-tuple computation (a necessary and, with immutability of Op, sufficient "
@@ -122,7 +124,8 @@ P["C08"] = dict(
              "deformation integrates the negated velocity forward, the velocity inverse, over the same position and duration",
              "R-CONTAINS-AXES: the containment margin of each axis is computed from that axis' own cell size",
              "R-MULTIMAP: the NTv2 parent->children table is only ever extended",
-             "R-GRID-INVARIANT: grids have at least 2 rows and 2 columns"],
+             "R-GRID-INVARIANT: grids have at least 2 rows and 2 columns",
+             "R-SUBGRID-KEPT: no NTv2 sub-grid record is dropped because of its position in the file (the deepest sub-grid can only be found if it was kept)"],
     not_decided=["bilinearity, continuity, NTv2 sub-grid selection values", "unit conventions"],
     level="Decides the 'outside all grids is failed' clause as a path property; interpolation numerics are not decided.",
     design_ref="DESIGN.md section 3, C08",
@@ -138,7 +141,8 @@ P["C10"] = dict(
              "R-PIPE-MIN / R-UNDERFLOW-GUARD: a pipeline reports the minimum over its steps; stack underflow stomps and reports 0",
              "R-DISPATCH-EXHAUSTIVE: every stored dispatch literal has an arm (no live default arm returning 0)",
              "R-ELEMENT-PRESERVE: for plane / 3D / single-element operators every written tuple keeps the elements "
-             "the operator does not work on as copies of the same element of the tuple read"],
+             "the operator does not work on as copies of the same element of the tuple read",
+             "R-TUPLE-LOOP-COMPLETE: per-tuple loops visit every tuple (no break/return in the body), so no tuple is left untransformed, uncounted and looking valid"],
     not_decided=["NaN propagation through arithmetic", "which inputs are inside the domain"],
     level="Decides the counting/NaN discipline and untouched-axes clauses as all-paths properties of the operator "
           "loops; numerical domain questions are not decided.",
@@ -158,7 +162,8 @@ P["C04"] = dict(
              "R-MACRO-ARGS: the body frame is built from the invocation text and arguments overwrite inherited values",
              "R-CHASE-ORDER: chase searches locals before globals", "R-INV-SOURCE: inverted invocations are detected "
              "from the parameter map", "R-LOOKUP-FRESH: a search with a changing key runs on a fresh iterator "
-             "(fails today: known finding)"],
+             "(fails today: known finding)",
+             "R-CHASE-CALLS: every typed extraction calls chase(globals, &locals, key) with the maps in this order"],
     not_decided=["that $name, $name(d), (d) forms evaluate to the documented values", "precedence of values",
                  "equivalence of an invocation with its textual expansion", "stack frame sizes (101 levels assumed to fit)"],
     level="Decides termination of macro resolution (bounded recursion, terminating loops) as a structural proof "
@@ -178,7 +183,8 @@ P["C09"] = dict(
              "and coordinate modules has a ranking function",
              "R-REC-GUARD: bounded recursion", "T-ELLPS(parse): every table string parsed with unwrap is valid f64 syntax",
              "R-STR-SLICE: every byte-range slice of a str cuts at char boundaries (full range, find()/len() derived "
-             "offsets, or a reviewed site)", "R-UNDERFLOW-GUARD: stack accesses are preceded by a depth test"],
+             "offsets, or a reviewed site)", "R-UNDERFLOW-GUARD: stack accesses are preceded by a depth test",
+             "R-SLICE-INDEX-GUARD: in operator constructors a list-valued parameter is indexed only after a dominating test of its length that makes the index valid"],
     not_decided=["index arithmetic and slicing in general (455 clippy indexing sites; no bounds prover attempted)",
                  "arithmetic overflow", "stack depth in bytes"],
     level="Decides the named panic/hang mechanisms on all paths; does not decide absence of every possible panic.",
@@ -195,7 +201,8 @@ P["C12"] = dict(
              "R-PIPE-DUAL: the interpreter exchanges push/pop and stack_fwd/stack_inv between directions",
              "R-UNDERFLOW-GUARD: every stack access is preceded by a depth test whose failing side stomps and returns 0",
              "R-STACK-LOCAL: the stack is a fresh local of each application; no persistent storage of stack type",
-             "R-PIPE-MIN: an underflow (0) in any step makes the pipeline report 0"],
+             "R-PIPE-MIN: an underflow (0) in any step makes the pipeline report 0",
+             "R-UNDERFLOW-GUARD/exact: the depth tests are strict (`depth < demand` fails), a program needing exactly the available depth is not an underflow"],
     not_decided=["abstract-machine equivalence of the primitives", "constructor-time numeric validation"],
     level="Decides that the dispatch tables are total and read the right keys; the machine semantics are only "
           "partially decided (see DESIGN.md).",
@@ -216,7 +223,8 @@ P["C15"] = dict(
              "R-ALLOC-BOUND: file-derived allocation sizes are compared with the buffer length first",
              "R-LOOP-RANK: decoder and lookup loops terminate", "T-NTV2-OFFSETS: record offsets = 16k+8 in format order",
              "R-ENDIAN-ARMS: each getter pairs the big-endian flag with from_be_bytes and the other arm with from_le_bytes",
-             "R-MULTIMAP: sub-grids sharing a parent are all kept"],
+             "R-MULTIMAP: sub-grids sharing a parent are all kept",
+             "R-SUBGRID-KEPT: every sub-grid record decoded by Ntv2Grid::new is stored and registered under its parent, whatever the order of the records"],
     not_decided=["faithfulness of decoded values", "endianness handling", "binary/ASCII agreement",
                  "arithmetic overflow of header-derived products", "index arithmetic of BaseGrid::at beyond the row/col invariants"],
     level="Decides the memory-safety style clauses (no out-of-bounds read, no division by zero, no unguarded unwrap, "
@@ -237,7 +245,8 @@ P["C03"] = dict(
              "R-NAME-SIBLING: is_resource_name() is decided on operator_name(), so prefix modifiers / sugar do not hide a macro step",
              "R-DISPATCH: Op::apply/handle_inversion truth tables",
              "R-PIPE-OWN-PARAMS: the pipeline constructor does not tokenize the text of its steps as its own parameter "
-             "list (step modifiers cannot become modifiers of the enclosing pipeline)"],
+             "list (step modifiers cannot become modifiers of the enclosing pipeline)",
+             "R-INV-HANDLED: every operator Op::op obtains from a constructor (user registered or built-in) passes through handle_op_inversion"],
     not_decided=["</> desugaring and modifier rotation in the tokenizer", "bit-identity with stand-alone application "
                  "(follows from the shape but is not separately checked)", "omit_* leaking through globals"],
     level="Decides the interpreter's structure (order, duality, tally, modifier plumbing) on all paths; the "
@@ -259,7 +268,8 @@ P["C13"] = dict(
              "R-SIGN-SLICE: north/south aspect selection depends on the sign of the latitude parameter",
              "R-PARAM-EFFECT: (program slice) every parameter an operator declares reaches the values it writes, directly "
              "or through a key its constructor derives from it - no declared parameter is silently ignored",
-             "R-DIMENSION: (units-of-measure inference) every addition, subtraction and comparison in the ellipsoid geometry and in the operators with documented tuple conventions joins quantities of one physical dimension, transcendental functions get dimensionless arguments, and written tuple elements have the documented dimension (length / angle / time)"],
+             "R-DIMENSION: (units-of-measure inference) every addition, subtraction and comparison in the ellipsoid geometry and in the operators with documented tuple conventions joins quantities of one physical dimension, transcendental functions get dimensionless arguments, and written tuple elements have the documented dimension (length / angle / time)",
+             "R-KEY-DECLARED: every parameter an operator reads is declared in its gamut under the documented name (utm accepts ellps, ...)"],
     not_decided=["k_0 linearity", "lat_ts == corresponding k_0", "1SP == 2SP lcc", "merc == webmerc on a sphere",
                  "scaling with the semi-major axis"],
     level="Decides the unit, false-origin, UTM-constant and alias conventions structurally on all paths; the "
@@ -275,7 +285,8 @@ P["C19"] = dict(
              "dimensions in order, height 0 and epoch NaN for missing ones, the adapter's fixed fields where supplied; "
              "every set_coord stores exactly the stored dimensions in order",
              "R-DIM-GUARD: in the CoordinateTuple defaults every *_nth_unchecked(k), k != 0, is dominated by k < dim()",
-             "R-SIGNUM-ZERO: no conversion takes the sign of a degree-minute-second sum from an integer signum()"],
+             "R-SIGNUM-ZERO: no conversion takes the sign of a degree-minute-second sum from an integer signum()",
+             "R-DEFAULT-RMW: default CoordinateSet::set_xy/set_xyz/set_xyzt write the given values to the leading elements and every other element as read from the same index"],
     not_decided=["numeric loss / rounding of the encodings", "normalisation ranges", "arithmetic operator impls"],
     level="Decides the structural clauses of container and encoding consistency; rounding behaviour is not decided.",
     design_ref="DESIGN.md section 3, C19",
@@ -289,7 +300,8 @@ P["C20"] = dict(
              "R-KP-SLICE: the default-row tail slice starts within the row for any number of columns",
              "R-KP-DIRECTION: --inv / --roundtrip select Fwd/Inv as documented; the reference copy precedes the first apply",
              "R-KP-ERRORS: errors of ctx.op, ctx.apply, File::open reach main's Result through `?`",
-             "R-KP-DEFAULTS: missing height/time default to 0/NaN; -z/-t override elements 2/3"],
+             "R-KP-DEFAULTS: missing height/time default to 0/NaN; -z/-t override elements 2/3",
+             "R-BATCH-RESET: after an intermediate transform() in the reading loop the buffer is emptied on every path back to the loop header"],
     not_decided=["the printed digits (formatting, rounding, decimals/dimension per batch)", "comment/blank handling"],
     level="Decides the structural clauses of kp (one line per tuple, direction, error propagation, no panic on empty / "
           "wide input); what is printed is not decided.",
@@ -307,7 +319,8 @@ P["C14"] = dict(
              "R-GATHER-SCATTER / R-UNITCONVERT-WIRING: adapt, axisswap and unitconvert move and scale elements as "
              "their shared mappings require", "T-SERIES-CROSS: the Krueger series equals rectifying o conformal^-1 "
              "(tables from different papers agree exactly to n^6)",
-             "R-DIMENSION: (units-of-measure inference) every addition, subtraction and comparison in the ellipsoid geometry and in the operators with documented tuple conventions joins quantities of one physical dimension, transcendental functions get dimensionless arguments, and written tuple elements have the documented dimension (length / angle / time)"],
+             "R-DIMENSION: (units-of-measure inference) every addition, subtraction and comparison in the ellipsoid geometry and in the operators with documented tuple conventions joins quantities of one physical dimension, transcendental functions get dimensionless arguments, and written tuple elements have the documented dimension (length / angle / time)",
+             "R-PARAM-MIRROR: forward and inverse of the operators that wrap ellipsoid methods depend on the same parameters (same ellipsoid in both directions)"],
     not_decided=["every numerical agreement listed in the statement (tmerc vs btmerc, cart vs geocart inverse, "
                  "series vs closed forms and quadrature)"],
     level="Decides wiring agreement between independent routes; numerical agreement is not decided.",
@@ -317,7 +330,8 @@ P["C16"] = dict(
     claimed=True,
     technique="static analysis: declaration/use agreement of parameter keys between gamuts, constructors and readers",
     decides=["R-KEY-DECLARED: every key read by an operator (flags included) is declared in its gamut, stored by its "
-             "constructor, or implicit; so a declared flag is what the operator consults ('flags are true when present')"],
+             "constructor, or implicit; so a declared flag is what the operator consults ('flags are true when present')",
+             "R-TYPED-EXTRACT: in ParsedParameters::new each OpParameter variant is parsed by the parser of the declared type (usize / i64 / parse_sexagesimal / none) and naturals and integers are stored unconverted"],
     not_decided=["idempotence of normalize and equivalence of differently formatted texts (string rewriting on all "
                  "inputs)", "parsing of each value type", "defaults, required parameters, last-wins, unknown keys ignored"],
     level="Decides only the declaration/use agreement clause of 'parameters are typed as declared'; the tokenizer's "
@@ -337,7 +351,10 @@ P["C18"] = dict(
              "R-FRESH-ID: every Op gets a fresh random handle", "R-RESOLUTION-ORDER: pipeline, then user operator "
              "(no colon) or macro (colon), then built-in; a found user definition is final",
              "R-GRID-CACHE: the process-wide grid cache is touched only by get_grid/clear_grids; grids leave it as Arc "
-             "clones; no Arc mutation, no unsafe", "R-CONTEXT-AGREE"],
+             "clones; no Arc mutation, no unsafe", "R-CONTEXT-AGREE",
+             "R-CONTEXT-OP-FRESH: every Ok(handle) returned by Context::op is preceded by Op::new and the insertion of the new operator (no handle of an older operator is handed out)",
+             "R-REGISTRATION-FIRST: in Plain::get_resource the look-up among run-time registrations dominates every file read",
+             "R-NAME-SIBLING: is_resource_name and the macro branch of Op::op agree on what a macro name is (contains a colon)"],
     not_decided=["file based macro lookup semantics (get_resource string handling, fenced blocks)"],
     level="Decides immutability after instantiation, precedence of registrations and resolution order as structural / "
           "type-level facts valid for all histories and schedules; register file parsing is not decided.",
